@@ -147,6 +147,10 @@ JudgeQuery(e) ==
     [] e.ev = "walktypes" -> J("C15", e, "walk_types order / coverage", e.paths = WalkTypesPaths(ns))
     [] e.ev = "walkmethods" -> J("C15", e, "walk_methods order / coverage", e.paths = WalkMethodsPaths(ns))
     [] e.ev = "walkargs" -> J("C15", e, "walk_args order / coverage", e.pairs = WalkArgsPairs(ns))
+    [] e.ev = "roundtrip" ->
+         \* RoundTrip is an identity step on the abstract tree: serialising and reading back changes nothing
+         J("C19", e, "tree changed by the serde round trip",
+           e.rt = "ok" /\ e.after = e.before /\ e.before = ns /\ e.eq)
     [] e.ev = "key" -> J("C17", e, "Aidl::get_key", e.key = KeyOfNodes(ns))
     [] OTHER -> TRUE
 
